@@ -12,6 +12,7 @@ package main
 import (
 	"strings"
 	"sync"
+	"sync/atomic"
 	"time"
 
 	"github.com/tinode/chat/server/auth"
@@ -58,8 +59,9 @@ type Hub struct {
 	// Topics must be indexed by name
 	topics *sync.Map
 
-	// Current number of loaded topics
-	numTopics int
+	// Current number of loaded topics. Updated atomically: topics are added by the hub
+	// and removed by the hub as well as by topic initialization goroutines.
+	numTopics int32
 
 	// Channel for routing client-side messages, buffered at 4096
 	routeCli chan *ClientComMessage
@@ -94,12 +96,12 @@ func (h *Hub) topicGet(name string) *Topic {
 }
 
 func (h *Hub) topicPut(name string, t *Topic) {
-	h.numTopics++
+	atomic.AddInt32(&h.numTopics, 1)
 	h.topics.Store(name, t)
 }
 
 func (h *Hub) topicDel(name string) {
-	h.numTopics--
+	atomic.AddInt32(&h.numTopics, -1)
 	h.topics.Delete(name)
 }
 
@@ -400,7 +402,11 @@ func (h *Hub) topicUnreg(sess *Session, topic string, msg *ClientComMessage, rea
 			asUid = types.ParseUserId(msg.AsUser)
 		}
 		// Case 1 (unregister and delete)
-		if t := h.topicGet(topic); t != nil {
+		if t := h.topicGet(topic); t != nil && t.isInactive() && sess != nil && msg != nil {
+			// The topic is still being initialized by another goroutine (its fields cannot be read
+			// here without a data race) or is already being deleted.
+			sess.queueOut(ErrLockedReply(msg, now))
+		} else if t != nil {
 			// Case 1.1: topic is online
 			if (!asUid.IsZero() && t.owner == asUid) || (t.cat == types.TopicCatP2P && t.subsCount() < 2) {
 				// Case 1.1.1: requester is the owner or last sub in a p2p topic
